@@ -1254,6 +1254,15 @@ impl GraphDatabase {
                 }
             }
 
+            //a stored row can only be replaced by a row of the same entity:
+            //the rights are checked on the entity of the incoming row
+            if let Some(old_entity) = &node_to_insert.old_entity {
+                if !old_entity.eq(&node._entity) {
+                    invalid_nodes.push(node_to_insert.id);
+                    continue;
+                }
+            }
+
             let name = match self.data_model.name_for(&node._entity) {
                 Some(e) => e,
                 None => {
